@@ -404,6 +404,28 @@ def unload(mod):
         sys.modules.pop(mod.__name__, None)
 
 
+def purge_caches():
+    """forget the classes of finished families: lru caches of mashumaro (module level and on its classes, e.g.
+    CodeBuilder.get_field_default is cached per builder) and of typing keep every class ever seen alive (~1 MB per
+    history; a thorough run reached 2 GB and was the first victim of the OOM killer on a loaded machine)"""
+    import gc
+    import typing
+    for f in getattr(typing, "_cleanups", []):
+        f()
+    for name, mod in list(sys.modules.items()):
+        if mod is None or not name.startswith("mashumaro"):
+            continue
+        for v in list(vars(mod).values()):
+            for w in [v] + (list(vars(v).values()) if isinstance(v, type) and getattr(v, "__module__", "").startswith("mashumaro") else []):
+                cc = getattr(w, "cache_clear", None)
+                if callable(cc):
+                    try:
+                        cc()
+                    except Exception:
+                        pass
+    gc.collect()
+
+
 # ---------------------------------------------------------------------------
 # values and ops
 # ---------------------------------------------------------------------------
